@@ -67,6 +67,9 @@ def build_tree(root, rng, gen):
     files = {}
 
     def sidecar_content():
+        if rng.random() < 0.12:
+            # no annotation anywhere, but a reserved key in a place where it draws an issue
+            return {rng.choice(["response", "notes"]): {"Description": "x", "Levels": {"HED": {"a": "Red"}}}}
         cols = rng.sample(["trial_type", "response", "rt"], rng.randrange(1, 4))
         out = {}
         for c in cols:
